@@ -30,11 +30,21 @@ def run(tier, seed, replay=None):
         v.violation("C18:%s:%s" % (d["class"], "+".join(d["fields"])),
                     "real node departs from AdsLocal.tla at a step of class '%s' in %s: step %s" % (d["class"], ",".join(d["fields"]), last),
                     {"trace_line": d["line"], "segment": d["segment"]})
+    # mesh level (StableImpliesExact): real meshes, final advertisement tables validated by TLC
+    nsc = 12 if tier == "quick" else 120
+    mo = tracecheck.run(wd, ["adsmesh", "-scenarios", str(nsc), "-seed", str(seed)], "AdsConverged", "AdsConverged.cfg", "adsmesh")
+    for d in mo["diffs"]:
+        fin = d["segment"][-1]
+        kinds = sorted(set(x.split(":", 1)[1] for x in d["fields"]))
+        for kind in kinds:
+            v.violation("C18:final:" + kind,
+                        "after quiescence the advertisement tables of scenario %s are not exact: %s; operations %s" % (fin.get("sc"), d["fields"], fin.get("ops")),
+                        {"final": fin})
     missing = [c for c in ("withdrawn_newer", "cancel_unknown", "deleted", "replaced", "kept_current", "local_close") if c not in out["classes"]]
     if missing:
         raise vlib.Inconclusive("step classes never exercised: %s" % missing)
     cov = {
-        "states": r.distinct, "transitions": r.generated, "traces_validated_against_impl": out["segments"],
+        "states": r.distinct, "transitions": r.generated, "traces_validated_against_impl": out["segments"] + mo["steps"],
         "evaluations": out["steps"], "distinct_nontrivial": out["harness"]["distinct"],
         "rule": "seeded sequences of advertisements/withdrawals (owners o1,o2 and the node itself; 3 services; 6 time stamps plus "
                 "times around 'now'; exact duplicates on either link) and local open/close of advertised listeners on a real node "
@@ -42,10 +52,11 @@ def run(tier, seed, replay=None):
                 "step validated by TLC against AdsLocalTrace.tla",
         "samples": out["harness"]["samples"][:1] or out["lines"][1:4], "exhaustive": False,
         "step_classes": out["classes"], "witnesses": wit,
+        "mesh_scenarios": mo["steps"], "mesh_distinct": mo["harness"]["distinct"],
         "asis_counterexample": asis.violated,
         "tlc_design": {"spec": "AdsLocal.tla", "generated": r.generated, "distinct": r.distinct},
     }
     return v.finish("model_checking", cov, assumptions=[
         "advertisement times of one owner are distinct (the owner's clock is strictly increasing)",
-        "mesh-level convergence after quiescence is checked by the E2 scenarios, not by this node-local run",
+        "mesh level: lines/triangles/squares of 3-4 real nodes with a late joiner and one node stop; advertisement period 400 ms; final state judged after 3 consecutive matches or 40 periods",
     ])
